@@ -764,7 +764,9 @@ class GrpcSim(Simulator):
     generation_rule = ("Code is generated at check time by the working tree's plugin for a frozen corpus (3 own proto trees: "
                        "all four cardinalities, names needing re-casing, same method names in two services, same service "
                        "name in two packages, two files sharing one package, cross-package and well-known request/response types; 10 service cases of "
-                       "/repo/tests/inputs). Each run draws a case, which methods the server overrides, 1-4 client tasks x "
+                       "/repo/tests/inputs), plus seeded generated service files (sim/svcgen.py: 6 in the quick tier, 48 in the thorough "
+                       "tier; 1-2 services x 1-5 methods, random cardinalities, awkward names, nested / sibling-package / well-known "
+                       "types). Each run draws a case, which methods the server overrides, 1-4 client tasks x "
                        "1-3 calls multiplexed on one channel, request values (occasionally > 64 KiB), request-stream length "
                        "0-4 and source kind (list / tuple / generator / iterator / async generator / AsyncChannel fed by another task), the eight-way "
                        "stub-level x call-level timeout/deadline/metadata choice, handler and client pauses, and per "
@@ -790,26 +792,36 @@ class GrpcSim(Simulator):
                        "probe:message-larger-than-h2-window", "probe:tcp-resegmented-writes"]
 
     def __init__(self):
+        self.generated = []
         self.scratch = None
         self.cases: Dict[str, gen.Case] = {}
         self.case_names: List[str] = []
         self.gen_failed: Dict[str, str] = {}
         self._own_scratch = False
 
+    n_generated = {"quick": 6, "thorough": 48}
+
     def prepare(self, tier):
-        self.scratch, self.gen_failed = gen.generate_corpus()
+        import hashlib as _h
+        base = int(os.environ.get("VERIF_GEN_SEED", getattr(self, "verif_seed", 0)))
+        n = int(os.environ.get("VERIF_GEN_CASES", self.n_generated.get(tier, 6)))
+        self.generated = [(f"g{i:03d}", int.from_bytes(_h.sha256(f"svc:{base}:{i}".encode()).digest()[:6], "big"))
+                          for i in range(n)]
+        self.scratch, self.gen_failed = gen.generate_corpus(generated=self.generated)
         self._own_scratch = True
         self._load()
-        self.prepared_state = {"scratch": self.scratch, "failed": self.gen_failed}
+        self.prepared_state = {"scratch": self.scratch, "failed": self.gen_failed, "generated": self.generated}
 
     def adopt(self, state):
         self.scratch = state["scratch"]
         self.gen_failed = state["failed"]
+        self.generated = [tuple(x) for x in state.get("generated", [])]
         self._own_scratch = False
         self._load()
 
     def _load(self):
         names = [c for c, _ in gen.corpus() if c not in self.gen_failed]
+        names += [n for n, _ in self.generated if n not in self.gen_failed]
         self.import_failed: Dict[str, str] = {}
         self.cases = {}
         gen_dir = os.path.join(self.scratch, "gen")
@@ -851,6 +863,6 @@ class GrpcSim(Simulator):
         return _Run(self, tape, trace, stats).go()
 
     def extra_evidence(self):
-        return dict(corpus_cases=self.case_names,
+        return dict(corpus_cases=self.case_names, generated_service_files=len(self.generated),
                     services=sum(len(c.services) for c in self.cases.values()),
                     methods=sum(len(s.methods) for c in self.cases.values() for s in c.services))
